@@ -221,6 +221,18 @@ impl FakeRedis {
                 self.data.insert(cmd[1].clone(), REntry { val: RVal::Str(cmd[3].clone()), expire_at: Some(now + ms) });
                 ok()
             }
+            "GETDEL" => {
+                need!(2);
+                if !self.live(&cmd[1], now) {
+                    return nil();
+                }
+                let r = match &self.data[&cmd[1]].val {
+                    RVal::Str(s) => bulk(s),
+                    _ => return err("WRONGTYPE Operation against a key holding the wrong kind of value"),
+                };
+                self.data.remove(&cmd[1]);
+                r
+            }
             "GETSET" => {
                 need!(3);
                 let old = if self.live(&cmd[1], now) {
